@@ -33,6 +33,50 @@ def setup():
     return 0
 
 
+# ----------------------------------------------------------------------------------- auxiliary compile probes
+
+PROBES = {
+    # bin: (property, accepted rustc error codes, what must be impossible)
+    "reject_not_send_owner": ("C05", {"E0277"}, "Bytes::from_owner accepts an owner that is not Send (its destructor runs on whichever thread drops the last handle)"),
+    "reject_not_sync_bytesmut_share": ("C05", {"E0277"}, "Chain/Take over a !Send Buf can be moved to another thread"),
+    "reject_borrowed_owner": ("C03", {"E0597", "E0521", "E0716", "E0515", "E0505"}, "Bytes::from_owner accepts a non-'static owner (a Bytes could outlive borrowed memory)"),
+    "reject_chunk_outlives_advance": ("C02", {"E0502", "E0499", "E0506"}, "a chunk() borrowed from a BytesMut survives a mutation of that BytesMut"),
+}
+
+
+def run_probes(prop, agg):
+    """Auxiliary static guard (NOT runtime monitoring, see DESIGN 11.6): programs that safe code must not be able to
+    write are compiled against /repo and must be rejected. A probe that compiles is a violation; a probe crate that
+    cannot be checked at all (control bin fails) is inconclusive."""
+    import subprocess
+    pdir = os.path.join(vlib.ROOT, "probes")
+    env = dict(os.environ, CARGO_TARGET_DIR=os.path.join(vlib.ROOT, "target-probes"), CARGO_NET_OFFLINE="true", RUSTFLAGS="")
+    mine = [b for b, (p, _, _) in PROBES.items() if p == prop]
+    if not mine:
+        return
+    def check(b):
+        p = subprocess.run(["cargo", "check", "--offline", "--quiet", "--bin", b], cwd=pdir, env=env, stdout=subprocess.PIPE, stderr=subprocess.STDOUT, text=True, timeout=900)
+        return p.returncode, p.stdout
+    rc, out = check("control_send_owner")
+    if rc != 0:
+        agg.inconclusive.append("compile probes: the control program does not build: " + out[-300:].replace("\n", " | "))
+        return
+    for b in mine:
+        _, codes, what = PROBES[b]
+        rc, out = check(b)
+        import re as _re
+        seen = set(_re.findall(r"error\[(E\d+)\]", out))
+        agg.add_counter("compile_probes", 1)
+        if rc == 0:
+            fake = Job(f"probe:{b}", ["cargo", "check", "--offline", "--bin", b], build=None, cwd=pdir)
+            agg.viols.append((prop, f"compile-probe:{b}", f"probe:{b}", f"{what}: the probe program probes/src/bin/{b}.rs compiles against the current tree", fake))
+        elif not (seen & codes):
+            agg.inconclusive.append(f"compile probe {b}: rejected, but with {sorted(seen)} instead of {sorted(codes)}")
+        else:
+            agg.add_counter("compile_probes_rejected", 1)
+            agg.cells.add(f"probe|{b}|rejected|{sorted(seen & codes)[0]}")
+
+
 # ----------------------------------------------------------------------------------- E1
 
 E1 = {
@@ -155,6 +199,7 @@ def run_e1(prop, tier, seed, t0):
     agg = Agg(prop)
     for j in run_jobs(jobs):
         agg.absorb(j)
+    run_probes(prop, agg)
     exh_complete = bool(agg.counters.get("exh_complete", 0)) and agg.done == agg.jobs
     extra = {
         "exhaustive_part": {"depth": agg.counters.get("exh_depth", 0), "complete": exh_complete},
@@ -450,6 +495,7 @@ def run_c05(prop, tier, seed, t0):
              "zero_copy_exclusive_winners": agg.counters.get("zero_copy_winners", 0)}
     if agg.counters.get("cas_lost_executions", 0) == 0:
         agg.inconclusive.append("the lost-promotion-race path was never observed in this run")
+    run_probes(prop, agg)
     rule = CONC_RULE + " C05 runs them natively on the ledger allocator (release and debug), natively under ASan+LSan (ledger off: use-after-free, double free and leaks trapped by the sanitizer) and under Miri with many schedule seeds."
     return finish(prop, tier, seed, agg, t0, "exploration", rule, extra=extra, min_eval_key="executions",
                   assumptions=["sampled schedules only (OS scheduler + injected delays natively, Miri's randomised scheduler with weak-memory emulation per seed)", "thread spawn/barrier/join are the only synchronisation added by the harness"])
